@@ -471,7 +471,15 @@ func (e *expander) expandExpr(expr *Expr) []*Expr {
 		return []*Expr{ret}
 	case List:
 		out := &Expr{Kind: List, Origin: expr.Origin, ListFlags: expr.ListFlags}
+		// Note: positions inside a list element are local to that element, so nonterminals
+		// extracted from it must be made known to its own commands only.
+		outer := e.createdNts
+		e.createdNts = make(map[int]int)
 		out.Sub = e.expandExpr(expr.Sub[0])
+		for _, sub := range out.Sub {
+			updateArgRefs(sub, e.createdNts)
+		}
+		e.createdNts = outer
 		if len(out.Sub) > 1 {
 			// We support a choice of elements
 			out.Sub = []*Expr{{Kind: Choice, Sub: out.Sub, Origin: expr.Origin}}
